@@ -278,9 +278,19 @@ class HttpParser:
                 raw = raw[len(CRLF):]
             # Mark request as complete if headers received and no incoming
             # body indication received.
+            #
+            # A request without content-length and transfer-encoding header has
+            # no body and so does a message with an explicit zero content-length.
+            # Bytes that follow belong to the next message, leave them in the buffer.
+            # Only for a response without body indication we cannot tell and
+            # following bytes, if any, are consumed as body (see issue 398).
             elif self.state == httpParserStates.HEADERS_COMPLETE and \
                     not (self._content_expected or self._is_chunked_encoded) and \
-                    raw == b'':
+                    (
+                        raw == b'' or
+                        self.type == httpParserTypes.REQUEST_PARSER or
+                        self.has_header(b'content-length')
+                    ):
                 self.state = httpParserStates.COMPLETE
         self.buffer = None if raw == b'' else raw
 
